@@ -173,6 +173,9 @@ func siblingExpiryBatch(c *sup.Ctx) {
 	for j := 0; j < rtBatch; j++ {
 		i := c.Local*rtBatch + j
 		spec := rt.Spec{Disk: i%2 == 1, Intro: rt.Introducers[i%len(rt.Introducers)], Order: "sibling-collection", Relative: (i/2)%2 == 0, Coll: (i / 4) % 2, Lead: 2}
+		if (i/8)%3 == 2 {
+			spec.Order = "earlier-deadline-dropped" // what is done to the sibling collection (its drop) must not cost this one its expiry
+		}
 		if spec.Intro == "SetWithMeta" {
 			spec.Relative = false
 		}
@@ -191,8 +194,8 @@ func siblingExpiryBatch(c *sup.Ctx) {
 		}
 		for _, p := range res.Problems {
 			kind, text := splitKind(p)
-			if kind == "sibling" {
-				c.Viol([]string{"C11", "C14"}, fmt.Sprintf("expiry|sibling|%s", res.Spec.Intro), text, res)
+			if kind == "sibling" || res.Spec.Order == "earlier-deadline-dropped" {
+				c.Viol([]string{"C11", "C14"}, fmt.Sprintf("expiry|%s|%s|%s", kind, res.Spec.Intro, res.Spec.Order), text, res)
 				break
 			}
 		}
